@@ -34,11 +34,12 @@ def _plain(items, desc):
 
 def grouped(p):
     desc, n, g = p['desc'], p['n'], p['g']
+    opt = p.get('opt', False)          # items may be None (a missing measurement): only None-tolerant operators are used then
     sig = []
     pre = []
     for i in range(n):
-        sig += [('k%d' % i, 'int'), ('v%d' % i, 'int')]
-        pre += ['0 <= k%d <= %d' % (i, g - 1), '-2**40 <= v%d <= 2**40' % i]
+        sig += [('k%d' % i, 'int'), ('v%d' % i, 'Optional[int]' if opt else 'int')]
+        pre += ['0 <= k%d <= %d' % (i, g - 1), ('v%d is None or ' % i if opt else '') + '-2**40 <= v%d <= 2**40' % i]
 
     def body(a):
         items = [(conc(a[2 * i], g), a[2 * i + 1]) for i in range(n)]
@@ -371,6 +372,9 @@ def obligations(tier, seed):
                 while nn > 2 and br ** nn > (40 if q else 300):
                     nn -= 1
                 obs.append(Ob(PROP, 'lifetimes', dict(desc=d, n=nn, parent=parent), budget=b, group='lifetimes:' + parent, bound=dict(items=nn, parent=parent, pipeline=C.show(d))))
+    for j in ('zip', 'combine_latest', 'merge'):
+        for d in ([['tee', j, [[['identity']], [['fill_none']]]]], [['tee', j, [[['fill_none'], ['filter_even']], [['do_action']], [['count']]]]]):
+            obs.append(Ob(PROP, 'grouped', dict(desc=d, n=3, g=2, opt=True), budget=b, group='grouped:optional items', bound=dict(items=3, groups=2, values='int or None', pipeline=C.show(d))))
     ts = [[['take2'], ['count'], ['map_inc']], [['scan_add'], ['first'], ['scan_max']], [['duc'], ['take1'], ['to_list_sum']], [['batch2_sum'], ['last']], [['count'], ['scan_add_r']]]
     for d in ts:
         for cut in range(1, len(d)):
